@@ -246,11 +246,71 @@ pub fn leaf_collision_pairs(li: usize, keys: &[KeyCode]) -> (Vec<PairObs>, u64, 
 
 /// Histories built round the runs of key codes that the tree's source spells out (build.rs): each run in full and each
 /// proper prefix, typed with nothing / Alt / Ctrl / Shift / AltGr / Ctrl+Alt held, keys released or not, followed by other keys.
+pub fn real_world_key_sequences() -> Vec<Vec<KeyCode>> {
+    use KeyCode::*;
+    vec![
+        vec![ScrollLock, ScrollLock, Key1, Return], // KVM switch hot-keys
+        vec![ScrollLock, ScrollLock, Key2, Return],
+        vec![ScrollLock, ScrollLock, ArrowUp],
+        vec![NumpadLock, NumpadLock, Key1, Return],
+        vec![LControl, LControl, Key1, Return],
+        vec![LControl, LAlt, Delete], // secure attention
+        vec![RControl, RAltGr, Delete],
+        vec![LAlt, SysRq, R, E, I, S, U, B], // magic SysRq
+        vec![LAlt, PrintScreen, R, E, I, S, U, B],
+        vec![LShift, LShift, LShift, LShift, LShift], // sticky keys
+        vec![LAlt, Numpad0, Numpad1, Numpad2, Numpad8], // Alt codes
+        vec![LAlt, Numpad6, Numpad5],
+        vec![LAlt, Tab, Tab],
+        vec![LWin, L],
+        vec![LControl, PauseBreak],
+        vec![LControl, LAlt, F1],
+        vec![LControl, LAlt, Backspace],
+        vec![LControl, LShift, Escape],
+        vec![LShift, Insert],
+        vec![CapsLock, CapsLock],
+        vec![Escape, Escape],
+    ]
+}
+
+/// all sequences of length 1..=4 over the non-modifier keys that the decoders' source file names (build.rs), at most 16 of them
+pub fn named_key_sequences() -> Vec<Vec<KeyCode>> {
+    let ks: Vec<KeyCode> = decoder_named_keys().into_iter().filter(|k| !MOD_KEYS.contains(k) && NAMED_KEYS.contains(k)).take(16).collect();
+    let mut out: Vec<Vec<KeyCode>> = Vec::new();
+    let mut level: Vec<Vec<KeyCode>> = vec![vec![]];
+    for _ in 0..4 {
+        let mut next = Vec::new();
+        for p in level.iter() {
+            for k in ks.iter() {
+                let mut q = p.clone();
+                q.push(*k);
+                next.push(q);
+            }
+        }
+        out.extend(next.iter().cloned());
+        level = next;
+    }
+    out
+}
+
 pub fn magic_key_histories() -> Vec<Vec<HOp>> {
     let mut out = Vec::new();
+    // short runs over the keys the decoder names: each typed with nothing / each momentary modifier / CapsLock held
+    {
+        let ctxs: [&[KeyCode]; 9] = [&[], &[KeyCode::LShift], &[KeyCode::RShift], &[KeyCode::LControl], &[KeyCode::RControl], &[KeyCode::LAlt], &[KeyCode::RAltGr], &[KeyCode::CapsLock], &[KeyCode::LShift, KeyCode::RControl, KeyCode::LAlt]];
+        for seq in named_key_sequences() {
+            for ctx in ctxs.iter() {
+                let mut h: Vec<HOp> = ctx.iter().map(|m| HOp::Ev(*m, KeyState::Down)).collect();
+                h.extend(seq.iter().map(|k| HOp::Ev(*k, KeyState::Down)));
+                h.push(HOp::Ev(KeyCode::A, KeyState::Down));
+                h.push(HOp::Ev(*seq.last().unwrap(), KeyState::Down));
+                out.push(h);
+            }
+        }
+    }
     let follow = [KeyCode::A, KeyCode::F1, KeyCode::Numpad7, KeyCode::Return, KeyCode::Delete];
     let ctxs: [&[KeyCode]; 6] = [&[], &[KeyCode::LAlt], &[KeyCode::LControl], &[KeyCode::LShift], &[KeyCode::RAltGr], &[KeyCode::LControl, KeyCode::LAlt]];
-    for seq in magic_key_sequences() {
+    for seq in magic_key_sequences().into_iter().chain(real_world_key_sequences()) {
         for n in 1..=seq.len() {
             for ctx in ctxs.iter() {
                 for release in [false, true] {
@@ -291,7 +351,8 @@ pub fn through_decoder(prop: &str, rep: &mut Report, cube: &Cube, focus: &[KeyCo
     // same key again – whatever stamps or counts events with a narrow integer sees the old value again
     let mut aba: Vec<Vec<HOp>> = Vec::new();
     for k in focus.iter().take(3) {
-        for period in [256usize, 65_536] {
+        // 2^k and its two neighbours (a tag that skips one value has period 2^k - 1)
+        for period in [255usize, 256, 257, 65_535, 65_536, 65_537] {
             // (changes, final change): `period` events that are also `period` real state changes, ending in a state that
             // differs from the one of the first press and in which the property still constrains the key
             let alt = |key: KeyCode, n: usize| -> Vec<HOp> { (0..n).map(|i| HOp::Ev(key, if i % 2 == 0 { KeyState::Down } else { KeyState::Up })).collect() };
@@ -315,10 +376,16 @@ pub fn through_decoder(prop: &str, rep: &mut Report, cube: &Cube, focus: &[KeyCo
             }
         }
     }
+    // histories built round particular runs of keys do not depend on the layout: they are typed on one layout per run
+    let n_core = aba.len();
     aba.extend(magic_key_histories());
     let n_aba = aba.len();
+    let magic_li = (rep.seed as usize) % cube.n_layouts;
     for li in 0..cube.n_layouts {
         for h in 0..(n_hist + n_aba) {
+            if h >= n_hist + n_core && li != magic_li {
+                continue;
+            }
             let mut rng = Rng::fork(rep.seed, 0x7470_0000 + ((li as u64) << 24) + h as u64);
             let ops = if h >= n_hist { aba[h - n_hist].clone() } else { history(&mut rng, focus, &all, if h < 2 { len * 40 } else { len }) };
             let r = guarded(|| {
@@ -412,9 +479,13 @@ pub fn through_decoder(prop: &str, rep: &mut Report, cube: &Cube, focus: &[KeyCo
                 std::thread::spawn(move || {
                     let mut all = Vec::new();
                     for k in 9..=kmax {
-                        match guarded(|| big_aba(dyn_layout(li, 0), key, tog, alt, last, 1u64 << k)) {
-                            Ok(obs) => all.push((k, obs)),
-                            Err(_) => return Err(()),
+                        // 2^k, and for the smaller ones its two neighbours as well
+                        let ns: &[i64] = if k <= 20 { &[0, -1, 1] } else { &[0] };
+                        for d in ns {
+                            match guarded(|| big_aba(dyn_layout(li, 0), key, tog, alt, last, ((1i64 << k) + d) as u64)) {
+                                Ok(obs) => all.push((k, obs)),
+                                Err(_) => return Err(()),
+                            }
                         }
                     }
                     Ok(all)
